@@ -183,10 +183,6 @@ def combos(case):
     return [(p, b) for p in case["models"]["peak"]["items"] for b in case["models"]["background"]["items"]]
 
 
-def min_npar(case):
-    return min(PEAK_NPAR[p["kind"]] + BKG_NPAR[b["kind"]] for p, b in combos(case))
-
-
 # ---------------------------------------------------------------- building scipp objects
 
 
@@ -347,7 +343,7 @@ def check_failure_fields(r, i, what):
 def analyse(case, b, results, labels, *, removal=True):
     """Oracles (1), (3), (4), (5), (6) on the list returned by fit_peaks. Returns a summary dict."""
     import scipp as sc
-    from scippneutron.peaks import FitAssessment, FitResult, remove_peaks
+    from scippneutron.peaks import FitAssessment, FitResult
 
     x, y, var = b["x"], b["y"], b["var"]
     est = case["estimates"]
@@ -749,10 +745,6 @@ def main_windows(draw, case, k_min, modes=("scalar", "explicit")):
         lo, hi = _widen_to(x, e - a, e + b, k_min)
         ranges.append([float(lo), float(hi)])
     return {"mode": "explicit", "ranges": ranges}
-
-
-def _ok_main(case, k_min=K_MAIN):
-    return min(intended_counts(case)) >= k_min
 
 
 @st.composite
